@@ -174,9 +174,30 @@ func checkFileFaults(c *mon.Case, f *fileFixture) {
 			c.Count("faults_injected", 1)
 			start, _ := firstSpanStart(spans, st.Absent)
 			judge(fmt.Sprintf("sequential read with block %d/%d unavailable (error kind %d)", i, len(blocks), kind), kind, 0, got, rerr, start-0, true)
-			if kind == 2+i%len(extraErrKinds) {
+			if rerr != nil {
+				// the failed read went through a buffer much wider than a block: the reader has to stand
+				// right behind the bytes it delivered
+				var q int64
+				var qerr error
+				if c.Guard("position after a failed read", func() { q, qerr = rs.Seek(0, io.SeekCurrent) }) {
+					c.Count("positions_checked_after_failed_reads", 1)
+					if qerr != nil || q != int64(len(got)) {
+						c.Violation("C12|file|position-after-error", "%s: a sequential read delivered %d bytes and then failed with the load error; the reader now reports position (%d, %v)", f.Name, len(got), q, qerr)
+					}
+				}
+			}
+			emptySpan := true
+			for _, sp := range spans {
+				if sp.Cid.Equals(b) && sp.End > sp.Start {
+					emptySpan = false
+				}
+			}
+			if kind == 2+i%len(extraErrKinds) && !emptySpan {
 				// the same sequential read made in small pieces by a consumer that asks the reader where it
-				// is before every piece (a progress meter): asking changes nothing
+				// is before every piece (a progress meter): asking changes nothing. (Blocks that hold no
+				// byte are left out: a position query rebuilds the stream at the current offset, and a
+				// stream that starts exactly behind a sub-tree has no use for the empty blocks at that
+				// sub-tree's end - whether it visits them is not what the property is about.)
 				rs := open()
 				if rs == nil {
 					return
